@@ -788,19 +788,117 @@ def run_case(ctx, case):
         return run_registry(ctx, [case])
     if case['kind'] == 'fill':
         return run_fill(ctx, case)
+    if case['kind'] == 'v4delay':
+        case['ops'] = [tuple(o) for o in case['ops']]
+        return run_v4delay(ctx, case)
 
 
 def run(ctx):
     rng = ctx.rng
-    for case in scripted_api() + [gen_api(rng) for _ in range(ctx.scale(900, 18000))]:
+    for case in scripted_api() + [gen_api(rng) for _ in range(ctx.scale(750, 18000))]:
         nt = run_api(ctx, case)
         ctx.note_case(('api', json.dumps(case, sort_keys=True, default=str)), nontrivial=nt,
                       sample=dict(kind='api', keep=keep_form(case['keep']), templates=case['templates'], store=case['store'],
                                   ops=[o[:2] for o in case['ops']][:5]))
         ctx.count('api')
-    run_registry(ctx, scripted_registry() + [gen_registry(rng) for _ in range(ctx.scale(600, 12000))])
-    for case in scripted_fill() + [gen_fill(rng) for _ in range(ctx.scale(700, 14000))]:
+    run_registry(ctx, scripted_registry() + [gen_registry(rng) for _ in range(ctx.scale(450, 12000))])
+    for case in scripted_fill() + [gen_fill(rng) for _ in range(ctx.scale(550, 14000))]:
         nt = run_fill(ctx, case)
         ctx.note_case(('fill', json.dumps(case, sort_keys=True, default=str)), nontrivial=nt,
                       sample=dict(kind='fill', parts=[x['state'][:2] for x in case['parts']], props=case['props']))
         ctx.count('fill')
+    for case in [gen_v4delay(rng) for _ in range(ctx.scale(250, 6000))]:
+        nt = run_v4delay(ctx, case)
+        ctx.note_case(('v4delay', json.dumps(case, sort_keys=True, default=str)), nontrivial=nt,
+                      sample=dict(kind='v4delay', nupdates=len(case['ups']), ndumps=len(case['ts']), ops=case['ops']))
+        ctx.count('v4delay')
+
+
+# ---------------------------------------------------------------------------------------------- (k) v4 applied_delay / applied_phase
+V4_TOL = 1e-9
+
+
+def run_v4delay(ctx, case):
+    """case: dict(kind='v4delay', S, F, ups=[(count, delay, rate, phase, phase_rate)] as Fraction strings, ts, keep, raw_times,
+    ops=[(which, select)]): the REAL visdatav4._calc_delay through SensorCache.get on the v4 registry"""
+    import katdal.visdatav4 as v4
+    from katdal.categorical import CategoricalData, ComparableArrayWrapper
+    from katdal.sensordata import SensorCache, SimpleSensorGetter
+    fr = lambda x: Fraction(x)
+    S, F = fr(case['S']), fr(case['F'])
+    ups = [tuple(fr(x) for x in u) for u in case['ups']]
+    ts = [fr(t) for t in case['ts']]
+    outs = ctx.model([[127, [w, wq(S), wq(F), [[wq(x) for x in u] for u in ups], [wq(t) for t in ts]]] for w in (True, False)])
+    vals = np.empty(len(ups), dtype=object)
+    for i, u in enumerate(ups):
+        vals[i] = ComparableArrayWrapper(tuple([int(u[0])] + [float(x) for x in u[1:]]))
+    T = len(ts)
+    raw = {'i0_acv_m000h_delay': SimpleSensorGetter('i0_acv_m000h_delay', np.array([float(x) for x in case['raw_times']]), vals)}
+    sc = SensorCache(raw, np.array([float(t) for t in ts]), 2.0, keep=np.array(case['keep'], dtype=bool),
+                     virtual=v4.VIRTUAL_SENSORS, props={})
+    sc['Correlator/antenna_channelised_voltage_stream'] = CategoricalData(['i0_acv'], [0, T])
+    sc['Correlator/sync_time'] = CategoricalData([float(S)], [0, T])
+    sc['Correlator/scale_factor_timestamp'] = CategoricalData([float(F)], [0, T])
+    nontrivial = False
+    for i, (which, select) in enumerate(case['ops']):
+        name = 'Correlator/Inputs/m000h/applied_%s' % ('delay' if which else 'phase')
+        m, spec = outs[0 if which else 1]
+        sig = lambda sym: 'kind=v4delay;sensor=%s;selected=%d;symptom=%s' % ('delay' if which else 'phase', select, sym)
+        try:
+            got = sc.get(name, select=bool(select))
+        except Exception as e:
+            if m[0] == 2:
+                ctx.count('v4delay_rejected')
+                return nontrivial
+            ctx.disagree(sig('raises'), dict(case, failing_op=i), repr(e), m, 'applied_%s raised' % ('delay' if which else 'phase'))
+            return nontrivial
+        if m[0] != 0:
+            ctx.count('v4delay_skipped')
+            return nontrivial
+        want = [unq(x) for x in m[1]]
+        doc = [unq(x) for x in spec]
+        if select:
+            want = [w for w, b in zip(want, case['keep']) if b]
+            doc = [w for w, b in zip(doc, case['keep']) if b]
+        ok = isinstance(got, np.ndarray) and len(got) == len(want) and all(
+            abs(float(g) - float(w)) <= V4_TOL * max(1.0, abs(float(w))) for g, w in zip(got, want))
+        okd = isinstance(got, np.ndarray) and len(got) == len(doc) and all(
+            abs(float(g) - float(w)) <= V4_TOL * max(1.0, abs(float(w))) for g, w in zip(got, doc))
+        if not ok or not okd:
+            ctx.disagree(sig('values_differ' if isinstance(got, np.ndarray) and len(got) == len(want) else 'shape_differs'),
+                         dict(case, failing_op=i), [float(x) for x in np.atleast_1d(got)][:12], [float(x) for x in want][:12],
+                         'applied_%s differs from the latest update advanced at its rate' % ('delay' if which else 'phase'),
+                         spec=[float(x) for x in doc][:12], kind='property' if not okd else 'tie')
+            return nontrivial
+        nontrivial = nontrivial or len(want) > 0
+        ctx.count('v4delay_op=%s%s' % ('delay' if which else 'phase', '+select' if select else ''))
+    held = sorted(k for k in sc.keys() if k.startswith('Correlator/Inputs/'))
+    if case['ops'] and held != ['Correlator/Inputs/m000h/applied_delay', 'Correlator/Inputs/m000h/applied_phase']:
+        ctx.disagree('kind=v4delay;symptom=names_stored', case, held, None, 'both applied_delay and applied_phase must be stored')
+    ctx.traces_validated += 1
+    return nontrivial
+
+
+def gen_v4delay(rng):
+    T = rng.randint(1, 8)
+    base_t = rng.choice([1000, 5000])
+    grid, k = [], 0
+    for _ in range(T):
+        k += rng.choice([2, 2, 2, 4, 6])
+        grid.append(Fraction(base_t) + Fraction(k, 1))
+    F = rng.choice([1024, 2048, 4096])
+    S = Fraction(base_t - rng.choice([100, 500]))
+    n = rng.randint(1, 5)
+    # update times on an 1/8 s lattice offset by 1/16 s from the dumps' whole seconds, so that no dump falls into the
+    # microsecond before an update; from before the first dump to after the last one
+    t = Fraction(base_t) + Fraction(rng.randint(-6, 3) * 8 + 1, 16)
+    ups = []
+    for i in range(n):
+        count = (t - S) * F
+        ups.append((count, Fraction(rng.randint(-50, 50), 8), Fraction(rng.randint(-8, 8), 64),
+                    Fraction(rng.randint(-50, 50), 8), Fraction(rng.randint(-8, 8), 64)))
+        t += Fraction(rng.randint(1, 40), 8)
+    keep = [rng.random() < 0.6 for _ in range(T)]
+    ops = [(rng.random() < 0.5, rng.random() < 0.4) for _ in range(rng.randint(1, 4))]
+    return dict(kind='v4delay', S=str(S), F=str(F), ups=[[str(x) for x in u] for u in ups], ts=[str(x) for x in grid], keep=keep,
+                raw_times=[float(base_t - 50 + 3 * i) for i in range(n)], ops=ops)
